@@ -25,7 +25,7 @@ def run(ctx):
     ctx.rule("R13.1", "a Continue response is queued exactly when: end of headers, length != 0, length within limit, expect()")
     ctx.rule("R13.2", "its version is the pending request's http_version()")
     ctx.rule("R13.3", "exactly one site in the crate builds a Continue response; it is not inside a cycle of the header parser")
-    ctx.rule("R13.4", "Headers.expect is written only with true, under Expect + trimmed value == '100-continue'; accessors are identities")
+    ctx.rule("R13.4", "Headers.expect starts false (content_length 0) and is written only with true, under Expect + trimmed value == '100-continue'; accessors are identities")
     ctx.rule("R13.5", "after a read that leaves output pending the server switches the connection to OUT interest")
     ctx.guarded("R13.1", "conditions", lambda: conditions(ctx))
     ctx.guarded("R13.3", "single-site", lambda: single_site(ctx))
@@ -148,5 +148,9 @@ def expect_writers(ctx):
     from .util import writer_roots
     for w in field_writers(facts, "common::headers::Headers", "expect"):
         ctx.ob("R13.4", "writers|%s" % w[0], writer_roots(facts, w[0]) <= {conn.PHL, "<common::headers::Headers as std::default::Default>::default"}, "writer of Headers.expect: %s (%s)" % (w[0], w[3]), w[2])
+    # ... and starts false, with length 0: a request that says nothing about Expect / Content-Length gets no Continue
+    from .c15 import headers_default
+    from .c06 import _Remap
+    headers_default(_Remap(ctx, "R13.4"), "R13.4", fields=("expect", "content_length"))
     conn.accessor_is(ctx, "R13.4", "common::headers::Headers::expect", ["expect"])
     conn.accessor_is(ctx, "R13.4", "common::headers::Headers::content_length", ["content_length"])
